@@ -145,8 +145,8 @@ def theorem_text(name, kinds, methods, cls_thms):
     for c in cl:
         hyps = " ".join("(by first | assumption | decide)" for b_ in cls_thms[c] if b_.startswith("h") and b_ != "h")
         dec = CLS_DEC[c]
-        alts.append("(method_pre (%s_sound (h := by assumption) %s) decode_%s dec%s%s <;> method_fin)"
-                    % (c, hyps, dec, re.sub(r"^(LdStPair)\d$", r"\1", dec), cases))
+        alts.append("(method_pre (%s_sound (h := by assumption)) decode_%s dec%s%s <;> method_fin)"
+                    % (c, dec, re.sub(r"^(LdStPair)\d$", r"\1", dec), cases))
     core = alts[0] if len(alts) == 1 else "first\n    | " + "\n    | ".join(alts)
     nsplit = sum(len(re.findall(r"^\s*if .* then$", methods[n][1], re.M)) for n in [name] + callees(name, methods))
     doc = ("/-- `%s`: if the method accepts its operands%s, it appends one word `w`, and `w` decodes under the reference "
